@@ -930,16 +930,16 @@ def cases(prop, tier, seed):
     fam = _family_c03()
     out.extend(fam if not quick else fam[::2])
     out.extend(_family_small())
-    n = 900 if quick else 12000
+    n = 900 if quick else 8000
     for i in range(n):
       out.append(_gen_traffic(rng, 'heap' if i % 3 else 'aperture', prop))
   elif prop == 'C04':
     out.extend(_family_small())
-    n = 1100 if quick else 12000
+    n = 1100 if quick else 8000
     for i in range(n):
       out.append(_gen_traffic(rng, 'heap' if i % 3 else 'aperture', prop))
   else:
-    n = 600 if quick else 6000
+    n = 600 if quick else 4000
     for i in range(n):
       out.append(_gen_traffic(rng, 'heap' if i % 2 else 'aperture', prop))
     for i in range(n):
